@@ -117,7 +117,8 @@ const NUMS: &[&str] = &["0", "7", "42", "1.5", "3.", "007", "10.25", "1.2.3"];
 const STRS: &[&str] = &["\"\"", "\"a\"", "\"a b\"", "\"é😀\"", "\"x\\\"y\"", "\"p\\\\\"", "\"\\n\\t\"", "\"{}\"", "\"//geen commentaar\""];
 const SEPS: &[&str] = &["", " ", "\n", "\t", "\u{b}", "\u{c}", "\r", "\u{85}", "\u{200e}", "\u{200f}", "\u{2028}", "\u{2029}",
     " // c\n", "//\n"];
-const ILLEGAL: &[&str] = &["№", "&", "|", "#", "@", "\"open", "٣", "~", "$"];
+const ILLEGAL: &[&str] = &["№", "&", "|", "#", "@", "\"open", "٣", "~", "$", "\u{a0}", "\u{3000}", "\u{2003}", "\u{1680}",
+    "\u{feff}", "\u{200b}", "\u{1c}", "\u{0}"];
 
 pub fn lex_inputs(seed: u64, n: u64, enumerate: bool) -> Vec<String> {
     let mut out: Vec<String> = Vec::new();
